@@ -465,6 +465,23 @@ def probes(ctx, libdir):
                        ok, r.stdout[-400:] + r.stderr[-400:])
     finally:
         os.remove(path)
+    # directed probe of the recorded input of the open finding deferred-sync-differs:whfast-corrector2 (so that it is
+    # reported on every run, whatever the random configurations drawn by the searcher)
+    rec = {"replay": {"check": "safe_vs_unsafe", "nsteps": 2, "keep": 0,
+                      "cfg": {"integ": "whfast", "corrector2": 1, "dt": 0.3141592653589793, "sysseed": 793908, "nplanets": 3}}}
+    with tempfile.NamedTemporaryFile("w", suffix=".json", delete=False) as f:
+        json.dump(rec, f); rpath = f.name
+    try:
+        r = vlib.run_py(libdir, os.path.join(HERE, "c09_search.py"), ["--replay", rpath], timeout=120)
+    finally:
+        os.remove(rpath)
+    ctx.case(key=("probe", "corrector2"))
+    m = re.search(r"REPLAY: (.*)", r.stdout)
+    if r.returncode not in (0, 1) or not m:
+        ctx.obligation("probe:C09 corrector2 recorded input ran", False, (r.stdout + r.stderr)[-400:])
+    elif r.returncode == 1:
+        ctx.violation("deferred-sync-differs:whfast-corrector2", rec["replay"], True,
+                      "WHFast corrector2=1, dt=0.05 orbits, 2 steps: safe_mode=1 and safe_mode=0+synchronize " + m.group(1))
 
 
 # ------------------------------------------------------------------------------------------ WHFast512 flags (AVX512 build)
